@@ -79,15 +79,54 @@ theorem typeDepth_lt (t : PType) : typeDepth t < (typeToks t).length := by
 structure WfAttrs (a : Attrs) : Prop where
   dirs : ∀ d ∈ a.dirs, dirWf d = true
 
-/-- all directive applications of an item of a plain export, in the order written and described:
-    the deprecation, then the custom directives -/
-def itemApps (a : Attrs) : List DirApp := depApps a.dep ++ a.dirs
+/-- the federation attributes of an item as directive applications (federation exports only) -/
+def fedApps (o : Opts) (a : Attrs) : List DirApp :=
+  if o.federation then
+    (if a.inacc then [⟨kwT "inaccessible", []⟩] else []) ++ a.tags.map (fun t => ⟨kwT "tag", [(kwT "name", .str t)]⟩)
+  else []
 
-theorem itemApps_wf (a : Attrs) (h : WfAttrs a) : ∀ d ∈ itemApps a, dirWf d = true := by
+theorem fedApps_dDir (o : Opts) (a : Attrs) : (fedApps o a).map dDir = dFed o a := by
+  unfold fedApps dFed
+  split
+  · cases a.inacc <;> simp [dDir, SValue.toP, Function.comp_def]
+  · rfl
+
+theorem fedApps_wf (o : Opts) (a : Attrs) : ∀ d ∈ fedApps o a, dirWf d = true := by
+  intro d hd
+  unfold fedApps at hd
+  split at hd
+  · rcases List.mem_append.mp hd with hd | hd
+    · cases hi : a.inacc
+      · rw [hi] at hd; cases hd
+      · rw [hi] at hd; simp only [if_true, List.mem_singleton] at hd; subst hd; decide
+    · obtain ⟨t, _, rfl⟩ := List.mem_map.mp hd
+      simp only [dirWf, sfWf, svWf, Bool.and_true]; decide
+  · cases hd
+
+/-- all directive applications of an item, in the order `describe` lists them (and the exporter
+    writes them on arguments, input fields and enum values): the deprecation, the federation
+    attributes, the custom directives -/
+def itemApps (o : Opts) (a : Attrs) : List DirApp := depApps a.dep ++ (fedApps o a ++ a.dirs)
+
+/-- … in the order the exporter writes them on a field: the custom directives come before the
+    federation attributes -/
+def fieldApps (o : Opts) (a : Attrs) : List DirApp := depApps a.dep ++ (a.dirs ++ fedApps o a)
+
+theorem itemApps_wf (o : Opts) (a : Attrs) (h : WfAttrs a) : ∀ d ∈ itemApps o a, dirWf d = true := by
   intro d hd
   rcases List.mem_append.mp hd with hd | hd
   · exact depApps_wf _ d hd
-  · exact h.dirs d hd
+  · rcases List.mem_append.mp hd with hd | hd
+    · exact fedApps_wf o a d hd
+    · exact h.dirs d hd
+
+theorem fieldApps_wf (o : Opts) (a : Attrs) (h : WfAttrs a) : ∀ d ∈ fieldApps o a, dirWf d = true := by
+  intro d hd
+  rcases List.mem_append.mp hd with hd | hd
+  · exact depApps_wf _ d hd
+  · rcases List.mem_append.mp hd with hd | hd
+    · exact h.dirs d hd
+    · exact fedApps_wf o a d hd
 
 def WfType : PType → Prop
   | .named n _ => isName n = true
@@ -104,12 +143,12 @@ def defaultToks : Option SValue → List Tok
   | none => []
   | some v => .punct '=' :: svToks v
 
-def ivCore (x : InputVal) : List Tok :=
-  .name x.name :: .punct ':' :: (typeToks x.ty ++ (defaultToks x.default ++ dirsToks (itemApps x.a)))
-def ivToks (x : InputVal) : List Tok := descToks x.a.desc ++ ivCore x
+def ivCore (o : Opts) (x : InputVal) : List Tok :=
+  .name x.name :: .punct ':' :: (typeToks x.ty ++ (defaultToks x.default ++ dirsToks (itemApps o x.a)))
+def ivToks (o : Opts) (x : InputVal) : List Tok := descToks x.a.desc ++ ivCore o x
 
-theorem dDirs_apps (o : Opts) (ho : o.federation = false) (a : Attrs) : dDirs o a = (itemApps a).map dDir := by
-  simp [dDirs, dFed, ho, itemApps, depApps_dDir]
+theorem dDirs_apps (o : Opts) (a : Attrs) : dDirs o a = (itemApps o a).map dDir := by
+  simp [dDirs, itemApps, depApps_dDir, fedApps_dDir]
 
 theorem constDirs_noAt (ts : List Tok) (h : ∀ r, ts ≠ .punct '@' :: r) : constDirs ts = some ([], ts) := by
   unfold constDirs pDirs
@@ -139,31 +178,31 @@ theorem dirsToks_noEq (ds : List DirApp) (rest : List Tok) (h : ∀ r, rest ≠ 
   | nil => simpa [dirsToks] using h
   | cons d ds => intro r; simp [dirsToks, dirToks]
 
-theorem pInputValue_toks (o : Opts) (ho : o.federation = false) (x : InputVal) (hx : SkelIv x) (rest : List Tok)
-    (h : TokEnd rest) : pInputValue (ivToks x ++ rest) = some (dIv o x, rest) := by
-  have hd := constDirs_toks (itemApps x.a) (itemApps_wf _ hx.attrs) rest h.dirEnd
-  have hdd := dDirs_apps o ho x.a
+theorem pInputValue_toks (o : Opts) (x : InputVal) (hx : SkelIv x) (rest : List Tok)
+    (h : TokEnd rest) : pInputValue (ivToks o x ++ rest) = some (dIv o x, rest) := by
+  have hd := constDirs_toks (itemApps o x.a) (itemApps_wf o _ hx.attrs) rest h.dirEnd
+  have hdd := dDirs_apps o x.a
   cases hdf : x.default with
   | none =>
-    have ht := pType_toks x.ty ((typeToks x.ty ++ (dirsToks (itemApps x.a) ++ rest)).length + 1) (dirsToks (itemApps x.a) ++ rest)
+    have ht := pType_toks x.ty ((typeToks x.ty ++ (dirsToks (itemApps o x.a) ++ rest)).length + 1) (dirsToks (itemApps o x.a) ++ rest)
       (by have := typeDepth_lt x.ty; simp; omega) (dirsToks_noBang _ _ h.noBang)
-    have hne := dirsToks_noEq (itemApps x.a) rest h.noEq
+    have hne := dirsToks_noEq (itemApps o x.a) rest h.noEq
     simp only [pInputValue, ivToks, ivCore, hdf, defaultToks, List.nil_append, List.append_assoc, List.cons_append,
       pDesc_descToks, ht]
-    generalize dirsToks (itemApps x.a) ++ rest = T at hd hne ⊢
+    generalize dirsToks (itemApps o x.a) ++ rest = T at hd hne ⊢
     simp [hd, dIv, hdf, hdd]
   | some v =>
     have hv := hx.default v hdf
-    have ht := pType_toks x.ty ((typeToks x.ty ++ (.punct '=' :: (svToks v ++ (dirsToks (itemApps x.a) ++ rest)))).length + 1)
-      (.punct '=' :: (svToks v ++ (dirsToks (itemApps x.a) ++ rest)))
+    have ht := pType_toks x.ty ((typeToks x.ty ++ (.punct '=' :: (svToks v ++ (dirsToks (itemApps o x.a) ++ rest)))).length + 1)
+      (.punct '=' :: (svToks v ++ (dirsToks (itemApps o x.a) ++ rest)))
       (by have := typeDepth_lt x.ty; simp; omega) (by intro r e; cases e)
-    have hpv := pValue_toks v hv (valueFuel (svToks v ++ (dirsToks (itemApps x.a) ++ rest))) (dirsToks (itemApps x.a) ++ rest)
+    have hpv := pValue_toks v hv (valueFuel (svToks v ++ (dirsToks (itemApps o x.a) ++ rest))) (dirsToks (itemApps o x.a) ++ rest)
       (by simp [valueFuel]; omega)
     simp only [pInputValue, ivToks, ivCore, hdf, defaultToks, List.append_assoc, List.cons_append,
       pDesc_descToks, ht, hpv, Option.map_some, hd]
     simp [dIv, hdf, hdd]
 
-def ivsToks (xs : List InputVal) : List Tok := xs.flatMap ivToks
+def ivsToks (o : Opts) (xs : List InputVal) : List Tok := xs.flatMap (ivToks o)
 
 /-- an item starts with a description or a Name -/
 inductive ItemHead : List Tok → Prop
@@ -175,19 +214,19 @@ theorem ItemHead.tokEnd {ts} (h : ItemHead ts) : TokEnd ts := by cases h <;> con
 theorem descToks_head (d : Option Text) (n : Text) (r : List Tok) : ItemHead (descToks d ++ .name n :: r) := by
   cases d <;> constructor
 
-theorem ivToks_head (x : InputVal) (r : List Tok) : ItemHead (ivToks x ++ r) := by
+theorem ivToks_head (o : Opts) (x : InputVal) (r : List Tok) : ItemHead (ivToks o x ++ r) := by
   simp only [ivToks, ivCore, List.append_assoc, List.cons_append]; exact descToks_head _ _ _
 
-theorem ivsToks_end (xs : List InputVal) (r : List Tok) (h : TokEnd r) : TokEnd (ivsToks xs ++ r) := by
+theorem ivsToks_end (o : Opts) (xs : List InputVal) (r : List Tok) (h : TokEnd r) : TokEnd (ivsToks o xs ++ r) := by
   cases xs with
   | nil => simpa [ivsToks] using h
-  | cons x xs => simp only [ivsToks, List.flatMap_cons, List.append_assoc]; exact (ivToks_head _ _).tokEnd
+  | cons x xs => simp only [ivsToks, List.flatMap_cons, List.append_assoc]; exact (ivToks_head o _ _).tokEnd
 
 /-- `InputValueDefinition+` followed by the closing token -/
-theorem pInputValues_toks (o : Opts) (ho : o.federation = false) (close : Char) (hc : close = ')' ∨ close = '}')
+theorem pInputValues_toks (o : Opts) (close : Char) (hc : close = ')' ∨ close = '}')
     (xs : List InputVal) (hne : xs ≠ []) (hxs : ∀ x ∈ xs, SkelIv x) (rest : List Tok) :
     ∀ g, xs.length ≤ g →
-      pInputValues close g (ivsToks xs ++ .punct close :: rest) = some (xs.map (dIv o), rest) := by
+      pInputValues close g (ivsToks o xs ++ .punct close :: rest) = some (xs.map (dIv o), rest) := by
   induction xs with
   | nil => exact absurd rfl hne
   | cons x xs ih =>
@@ -199,8 +238,8 @@ theorem pInputValues_toks (o : Opts) (ho : o.federation = false) (close : Char) 
         rcases hc with rfl | rfl
         · exact TokEnd.rpar _
         · exact TokEnd.rbrace _
-      have hiv := pInputValue_toks o ho x (hxs x List.mem_cons_self) (ivsToks xs ++ .punct close :: rest)
-        (ivsToks_end xs _ hcl)
+      have hiv := pInputValue_toks o x (hxs x List.mem_cons_self) (ivsToks o xs ++ .punct close :: rest)
+        (ivsToks_end o xs _ hcl)
       simp only [ivsToks, List.flatMap_cons, List.append_assoc] at hiv ⊢
       rw [pInputValues, hiv]
       cases xs with
@@ -208,11 +247,11 @@ theorem pInputValues_toks (o : Opts) (ho : o.federation = false) (close : Char) 
       | cons y ys =>
         have := ih (by simp) (fun z hz => hxs z (List.mem_cons_of_mem _ hz)) g (by simp at hg ⊢; omega)
         simp only [ivsToks, List.flatMap_cons, List.append_assoc, List.map_cons] at this ⊢
-        have hh := ivToks_head y (List.flatMap ivToks ys ++ .punct close :: rest)
-        generalize ivToks y ++ (List.flatMap ivToks ys ++ .punct close :: rest) = T at this hh ⊢
+        have hh := ivToks_head o y (List.flatMap (ivToks o) ys ++ .punct close :: rest)
+        generalize ivToks o y ++ (List.flatMap (ivToks o) ys ++ .punct close :: rest) = T at this hh ⊢
         cases hh <;> simp [this]
 
-theorem ivsToks_length (xs : List InputVal) : xs.length ≤ (ivsToks xs).length := by
+theorem ivsToks_length (o : Opts) (xs : List InputVal) : xs.length ≤ (ivsToks o xs).length := by
   induction xs with
   | nil => simp
   | cons x xs ih => simp [ivsToks, ivToks, ivCore] at ih ⊢; omega
@@ -227,10 +266,15 @@ structure SkelField (f : FieldDef) : Prop where
 
 def fieldCore (o : Opts) (f : FieldDef) : List Tok :=
   .name f.name ::
-    (if f.args.isEmpty then [] else .punct '(' :: ivsToks (sorted o.sortedArgs (·.name) f.args) ++ [.punct ')']) ++
-    .punct ':' :: (typeToks f.ty ++ dirsToks (itemApps f.a))
+    (if f.args.isEmpty then [] else .punct '(' :: ivsToks o (sorted o.sortedArgs (·.name) f.args) ++ [.punct ')']) ++
+    .punct ':' :: (typeToks f.ty ++ dirsToks (fieldApps o f.a))
 
 def fieldToks (o : Opts) (f : FieldDef) : List Tok := descToks f.a.desc ++ fieldCore o f
+
+/-- the field definition the exported text denotes: `dField` with the directive applications in
+    the exporter's order (equal to `dField` for a plain export, equal up to `normDirs` always) -/
+def xField (o : Opts) (f : FieldDef) : SField :=
+  ⟨f.name, f.a.desc, (sorted o.sortedArgs (·.name) f.args).map (dIv o), f.ty, (fieldApps o f.a).map dDir⟩
 
 theorem sorted_mem {α : Type} (on : Bool) (nm : α → Text) (xs : List α) (x : α) : x ∈ sorted on nm xs ↔ x ∈ xs := by
   unfold sorted; split <;> simp [List.mem_mergeSort]
@@ -244,30 +288,30 @@ theorem sorted_ne_nil {α : Type} (on : Bool) (nm : α → Text) (xs : List α) 
   rw [e] at this
   exact h (List.length_eq_zero_iff.mp this.symm)
 
-theorem pField_toks (o : Opts) (ho : o.federation = false) (f : FieldDef) (hf : SkelField f) (rest : List Tok)
-    (h : TokEnd rest) : pField (fieldToks o f ++ rest) = some (dField o f, rest) := by
-  have ht := fun g hg => pType_toks f.ty g (dirsToks (itemApps f.a) ++ rest) hg (dirsToks_noBang _ _ h.noBang)
-  have hd := constDirs_toks (itemApps f.a) (itemApps_wf _ hf.attrs) rest h.dirEnd
-  have hdd := dDirs_apps o ho f.a
+theorem pField_toks (o : Opts) (f : FieldDef) (hf : SkelField f) (rest : List Tok)
+    (h : TokEnd rest) : pField (fieldToks o f ++ rest) = some (xField o f, rest) := by
+  have ht := fun g hg => pType_toks f.ty g (dirsToks (fieldApps o f.a) ++ rest) hg (dirsToks_noBang _ _ h.noBang)
+  have hd := constDirs_toks (fieldApps o f.a) (fieldApps_wf o _ hf.attrs) rest h.dirEnd
+  have hdd := dDirs_apps o f.a
   have hdep := typeDepth_lt f.ty
   by_cases he : f.args = []
-  · have hA : pArgsDef (.punct ':' :: (typeToks f.ty ++ (dirsToks (itemApps f.a) ++ rest))) =
-        some ([], .punct ':' :: (typeToks f.ty ++ (dirsToks (itemApps f.a) ++ rest))) := rfl
+  · have hA : pArgsDef (.punct ':' :: (typeToks f.ty ++ (dirsToks (fieldApps o f.a) ++ rest))) =
+        some ([], .punct ':' :: (typeToks f.ty ++ (dirsToks (fieldApps o f.a) ++ rest))) := rfl
     simp only [pField, fieldToks, fieldCore, he, List.isEmpty_nil, if_true, List.nil_append, List.cons_append,
       List.append_assoc, pDesc_descToks, hA]
     rw [ht _ (by simp; omega)]
-    simp [hd, dField, hdd, sorted, he]
+    simp [hd, xField, sorted, he]
   · have hne : f.args.isEmpty = false := by simpa using he
-    have hargs := pInputValues_toks o ho ')' (Or.inl rfl) (sorted o.sortedArgs (·.name) f.args)
+    have hargs := pInputValues_toks o ')' (Or.inl rfl) (sorted o.sortedArgs (·.name) f.args)
       (sorted_ne_nil _ _ _ he) (fun x hx => hf.args x ((sorted_mem _ _ _ _).mp hx))
-      (.punct ':' :: (typeToks f.ty ++ (dirsToks (itemApps f.a) ++ rest)))
-    have hlen := ivsToks_length (sorted o.sortedArgs (·.name) f.args)
+      (.punct ':' :: (typeToks f.ty ++ (dirsToks (fieldApps o f.a) ++ rest)))
+    have hlen := ivsToks_length o (sorted o.sortedArgs (·.name) f.args)
     simp only [pField, fieldToks, fieldCore, hne, Bool.false_eq_true, if_false, List.cons_append, List.append_assoc,
       List.nil_append, pDesc_descToks, pArgsDef]
     rw [hargs _ (by simp; omega)]
     simp only []
     rw [ht _ (by simp; omega)]
-    simp [hd, dField, hdd]
+    simp [hd, xField]
 
 def fieldsToks (o : Opts) (fs : List FieldDef) : List Tok := fs.flatMap (fieldToks o)
 
@@ -279,10 +323,10 @@ theorem fieldsToks_end (o : Opts) (fs : List FieldDef) (r : List Tok) (h : TokEn
   | nil => simpa [fieldsToks] using h
   | cons x xs => simp only [fieldsToks, List.flatMap_cons, List.append_assoc]; exact (fieldToks_head _ _ _).tokEnd
 
-theorem pFields_toks (o : Opts) (ho : o.federation = false) (fs : List FieldDef) (hne : fs ≠ [])
+theorem pFields_toks (o : Opts) (fs : List FieldDef) (hne : fs ≠ [])
     (hfs : ∀ f ∈ fs, SkelField f) (rest : List Tok) :
     ∀ g, fs.length ≤ g →
-      pFields g (fieldsToks o fs ++ .punct '}' :: rest) = some (fs.map (dField o), rest) := by
+      pFields g (fieldsToks o fs ++ .punct '}' :: rest) = some (fs.map (xField o), rest) := by
   induction fs with
   | nil => exact absurd rfl hne
   | cons x xs ih =>
@@ -290,7 +334,7 @@ theorem pFields_toks (o : Opts) (ho : o.federation = false) (fs : List FieldDef)
     cases g with
     | zero => simp at hg
     | succ g =>
-      have hf := pField_toks o ho x (hfs x List.mem_cons_self) (fieldsToks o xs ++ .punct '}' :: rest)
+      have hf := pField_toks o x (hfs x List.mem_cons_self) (fieldsToks o xs ++ .punct '}' :: rest)
         (fieldsToks_end o xs _ (TokEnd.rbrace _))
       simp only [fieldsToks, List.flatMap_cons, List.append_assoc] at hf ⊢
       rw [pFields, hf]
@@ -387,16 +431,16 @@ structure SkelEnumVal (v : Text × Attrs) : Prop where
   notLit : v.1 ≠ kw "true" ∧ v.1 ≠ kw "false" ∧ v.1 ≠ kw "null"
   attrs : WfAttrs v.2
 
-def enumValToks (v : Text × Attrs) : List Tok := descToks v.2.desc ++ (Tok.name v.1 :: dirsToks (itemApps v.2))
-def enumToks (vs : List (Text × Attrs)) : List Tok := vs.flatMap enumValToks
+def enumValToks (o : Opts) (v : Text × Attrs) : List Tok := descToks v.2.desc ++ (Tok.name v.1 :: dirsToks (itemApps o v.2))
+def enumToks (o : Opts) (vs : List (Text × Attrs)) : List Tok := vs.flatMap (enumValToks o)
 
-theorem enumValToks_head (v : Text × Attrs) (r : List Tok) : ItemHead (enumValToks v ++ r) := by
+theorem enumValToks_head (o : Opts) (v : Text × Attrs) (r : List Tok) : ItemHead (enumValToks o v ++ r) := by
   simp only [enumValToks, List.append_assoc, List.cons_append, List.nil_append]; exact descToks_head _ _ _
 
-theorem pEnumValues_toks (o : Opts) (ho : o.federation = false) (vs : List (Text × Attrs)) (hne : vs ≠ [])
+theorem pEnumValues_toks (o : Opts) (vs : List (Text × Attrs)) (hne : vs ≠ [])
     (hvs : ∀ v ∈ vs, SkelEnumVal v) (rest : List Tok) :
     ∀ g, vs.length ≤ g →
-      pEnumValues g (enumToks vs ++ .punct '}' :: rest) =
+      pEnumValues g (enumToks o vs ++ .punct '}' :: rest) =
         some (vs.map (fun v => (⟨v.1, v.2.desc, dDirs o v.2⟩ : SEnumVal)), rest) := by
   induction vs with
   | nil => exact absurd rfl hne
@@ -406,24 +450,24 @@ theorem pEnumValues_toks (o : Opts) (ho : o.federation = false) (vs : List (Text
     | zero => simp at hg
     | succ g =>
       have hv := hvs v List.mem_cons_self
-      have hdd := dDirs_apps o ho v.2
+      have hdd := dDirs_apps o v.2
       cases vs with
       | nil =>
-        have hd := constDirs_toks (itemApps v.2) (itemApps_wf _ hv.attrs) (.punct '}' :: rest) (TokEnd.rbrace _).dirEnd
+        have hd := constDirs_toks (itemApps o v.2) (itemApps_wf o _ hv.attrs) (.punct '}' :: rest) (TokEnd.rbrace _).dirEnd
         simp only [enumToks, List.flatMap_cons, List.flatMap_nil, List.append_nil, enumValToks, List.append_assoc,
           List.cons_append, List.nil_append, pEnumValues, pDesc_descToks]
         simp [hv.notLit.1, hv.notLit.2.1, hv.notLit.2.2, hd, hdd]
       | cons w ws =>
         have := ih (by simp) (fun z hz => hvs z (List.mem_cons_of_mem _ hz)) g (by simp at hg ⊢; omega)
-        have hh := enumValToks_head w (enumToks ws ++ .punct '}' :: rest)
-        have hd := constDirs_toks (itemApps v.2) (itemApps_wf _ hv.attrs) (enumValToks w ++ (enumToks ws ++ .punct '}' :: rest))
+        have hh := enumValToks_head o w (enumToks o ws ++ .punct '}' :: rest)
+        have hd := constDirs_toks (itemApps o v.2) (itemApps_wf o _ hv.attrs) (enumValToks o w ++ (enumToks o ws ++ .punct '}' :: rest))
           hh.tokEnd.dirEnd
         simp only [enumToks, List.flatMap_cons, List.append_assoc, List.map_cons] at this hd hh ⊢
-        generalize enumValToks w ++ (List.flatMap enumValToks ws ++ .punct '}' :: rest) = T at this hd hh ⊢
+        generalize enumValToks o w ++ (List.flatMap (enumValToks o) ws ++ .punct '}' :: rest) = T at this hd hh ⊢
         simp only [enumValToks, List.append_assoc, List.cons_append, List.nil_append, pEnumValues, pDesc_descToks]
         cases hh <;> simp [hv.notLit.1, hv.notLit.2.1, hv.notLit.2.2, hd, hdd, this]
 
-theorem enumToks_length (vs : List (Text × Attrs)) : vs.length ≤ (enumToks vs).length := by
+theorem enumToks_length (o : Opts) (vs : List (Text × Attrs)) : vs.length ≤ (enumToks o vs).length := by
   induction vs with
   | nil => simp
   | cons x xs ih => simp [enumToks, enumValToks] at ih ⊢; omega
